@@ -234,7 +234,8 @@ pub proof fn lemma_leh_order(x: int, y: int, X: int, Y: int, k: int, a: int, b: 
 /// which makes (a x - b y, d y - c x) two CONSECUTIVE remainders of Euclid's algorithm on every (x, y) with these leading parts
 /// (second row last: d y - c x < a x - b y, lemma_leh_order2; first row last: the reverse, lemma_leh_order); gcd_ext_in_place relies
 /// on it: after its `if x <= y { swap }` the cofactor t1 must be the larger one.
-/// The unchanged lehmer.rs (`t + r > xbar - c` in the second half step, should be `xbar - b`) does NOT satisfy this.
+/// (Before the repair 0fb363c lehmer.rs tested `t + r > xbar - c` in the second half step and did NOT satisfy this: gcd_ext returned
+/// wrong cofactors for lhs = 0x6000000000000004c000000000000005aaaa..aaab (129 + 64 bits), rhs = 0xc000000000000001 << 128.)
 pub open spec fn leh_guess_exact(X: int, Y: int, a: int, b: int, c: int, d: int) -> bool {
     b == 0 || (c >= a && d >= b && d * Y - c * X + d <= a * X - b * Y - b)
         || (a >= c && b >= d && a * X - b * Y + a <= d * Y - c * X - c)
